@@ -543,6 +543,43 @@ def check_plot_diagrams(project: Project, rep):
                         construct=f"{qual}: inf line missing ({tag})")
 
 
+def check_plot_diagrams_given_range(project: Project, rep):
+    """PL-LIM with an explicit xy_range: the axes get exactly the requested window (lifetime=False), and the markers are
+    still the diagrams' own points"""
+    qual = "persim.visuals.plot_diagrams"
+    fi = project.function(qual)
+    if "xy_range" not in fi.params:
+        return
+    I = Interp(project, Config(nonempty={("rows", "S"), ("rows", "T")}, finite_inputs={"S", "T"}))
+    rng_ = Seq([Sc(sym.Sym(n_)) for n_ in ("x0", "x1", "y0", "y1")], "list")
+    try:
+        I.run(qual, {"diagrams": Seq([dgm_input("S"), dgm_input("T")]), "lifetime": Sc(sym.FALSE), "xy_range": rng_,
+                     "ax": ObjV(None, {}, tag="axes")})
+    except AnalysisError as ex:
+        rep.unmodelled("PL-LIM", fi, fi.node, f"xy_range given: {ex}"[:160])
+        return
+    lims = {}
+    for ev in I.log:
+        if ev["kind"] == "draw" and ev["method"] in ("set_xlim", "set_ylim"):
+            v = ev["pos"][0] if ev["pos"] else None
+            if isinstance(v, Seq) and len(v.items) == 2 and all(isinstance(x, Sc) and x.e is not None for x in v.items):
+                lims[ev["method"]] = (ev, v.items[0].e, v.items[1].e)
+    want = {"set_xlim": (sym.Sym("x0"), sym.Sym("x1")), "set_ylim": (sym.Sym("y0"), sym.Sym("y1"))}
+    for m, (lo_w, hi_w) in want.items():
+        if m not in lims:
+            rep.unmodelled("PL-LIM", fi, fi.node, f"xy_range given: {m} not found")
+            continue
+        ev, lo, hi = lims[m]
+        if lo == lo_w and hi == hi_w:
+            rep.discharged("PL-LIM", fi, ev["node"], f"xy_range given: {m} is exactly the requested window")
+        elif unmodelled_in(lo) or unmodelled_in(hi):
+            rep.unmodelled("PL-LIM", fi, ev["node"], f"xy_range given: {m} not modelled")
+        else:
+            rep.refuted("PL-LIM", fi, ev["node"], f"xy_range given: {m} is [{sym.show(lo)[:50]}, {sym.show(hi)[:50]}] instead of the "
+                                                  f"requested [{sym.show(lo_w)}, {sym.show(hi_w)}]",
+                        construct=f"{qual}: {m} with xy_range given")
+
+
 # ----------------------------------------------------------------------------- 2-D landscape plots (pattern)
 
 def check_landscape_plots(project: Project, rep):
@@ -645,6 +682,7 @@ def run(project: Project, rep, tier: str):
         if q.endswith("bottleneck_matching"):
             check_max_style(project, rep, q, I_)
     check_plot_diagrams(project, rep)
+    check_plot_diagrams_given_range(project, rep)
     check_landscape_plots(project, rep)
     # PL-PURE: a plot draws the data it is given and leaves them alone — in-place edits made while preparing the plot
     # (lifetime conversion, moving infinite deaths onto the infinity line) must act on a private copy, otherwise a second
